@@ -162,6 +162,15 @@ VCrMap(ev) ==
       Ok(IsVal(sc[1]) /\ sc[1][2] = SeqMin(cb) /\ IsVal(sc[2]) /\ sc[2][2] = SeqMax(cb) + 1, "chunk-relative-start-end"),
       Ok(IsVal(sc[3]) /\ sc[3][2] = Len(cb), "chunk-relative-size"),
       Ok(IsVal(sc[4]) /\ sc[4][2] = FlipIf(minus, St(ex)), "chunk-relative-strand") >>),
+    \* interval conversions (optional 12th field: <<a, b, relStrand, outcome <<"v", loc>> >>...): the sub-interval [a, b) of the
+    \* part on the chunk, as a chunk-relative location -- its bases are that slice (reversed for a minus relative strand)
+    IF Len(ev) < 12 THEN "ok" ELSE FirstBad([k \in DOMAIN ev[12] |->
+       LET a == ev[12][k][1] b == ev[12][k][2] rs == ev[12][k][3] o == ev[12][k][4] IN
+       IF ~(0 <= a /\ a < b /\ b <= Len(cb)) THEN Ok(Rejected(o) \/ (IsVal(o) /\ LenLoc(o[2]) = 0), "transcript-interval-to-chunk:refuses-outside")
+       ELSE IF ~IsVal(o) THEN "transcript-interval-to-chunk:returns"
+       ELSE LET want == SubSeq(cb, a + 1, b) IN
+            Ok(Bases(o[2]) = (IF rs = "-" THEN Reverse(want) ELSE want)
+               /\ St(o[2]) = RelStrand(rs, FlipIf(minus, St(ex))), "transcript-interval-to-chunk")]),
     IF ~coding THEN Ok(Rejected(sc[5]) /\ Rejected(sc[6]) /\ Rejected(sc[7]) /\ Rejected(sc[8]), "noncoding-rejects-cds-calls")
     ELSE FirstBad(<<
       Ok(IsVal(sc[5]) /\ sc[5][2] = MinStart(cds) /\ IsVal(sc[6]) /\ sc[6][2] = MaxEnd(cds), "cds-start-end"),
